@@ -1257,3 +1257,48 @@ Module ThreeExamples.
     map (fun e => length (snd e)) (combine_layers 1 1 pa [(true, pb); (true, pa)] (qh (100, 100, 200, 200))) = [3%nat].
   Proof. vm_compute. reflexivity. Qed.
 End ThreeExamples.
+
+(* ------------------------------------------------------------------ WMS 1.3.0 upstreams: axis order and crs *)
+Lemma swap_bbox_involutive b : swap_bbox (swap_bbox b) = b.
+Proof. destruct b as [[[x0 y0] x1] y1]. reflexivity. Qed.
+
+Lemma pget_premove_other k k' m : k <> k' -> pget k (premove k' m) = pget k m.
+Proof.
+  intros Hne. induction m as [|[k2 vs] r IH]; cbn; [reflexivity|].
+  destruct (k2 =? k') eqn:E; cbn.
+  - destruct (k2 =? k) eqn:E2; [lia|exact IH].
+  - destruct (k2 =? k); [reflexivity|exact IH].
+Qed.
+
+Lemma pget_premove_same k m : pget k (premove k m) = None.
+Proof.
+  induction m as [|[k2 vs] r IH]; cbn; [reflexivity|].
+  destruct (k2 =? k) eqn:E; cbn; [exact IH|]. rewrite E. exact IH.
+Qed.
+
+(* the BBOX of a request to a WMS 1.3.0 upstream, read in the axis order of its CRS (y/x for north/east CRSs), is the
+   negotiated bbox; the code is sent as CRS and no SRS parameter remains *)
+Lemma url_v130 ne tmpl fixed r :
+  ~ In K_BBOX (map fst fixed) -> ~ In K_SRS (map fst fixed) ->
+  let p := url_params_v true ne tmpl fixed r in
+  pget K_BBOX p = Some [VBox (if ne (s_code (r_srs r)) then swap_bbox (r_bbox r) else r_bbox r)] /\
+  pget K_CRS p = Some [VStr (s_code (r_srs r))] /\ pget K_SRS p = None.
+Proof.
+  intros Hb Hs. cbv zeta. unfold url_params_v.
+  pose proof (url_bbox tmpl fixed r Hb) as Eb. pose proof (url_srs tmpl fixed r Hs) as Es.
+  set (m := url_params tmpl fixed r) in *.
+  set (m1 := if ne (s_code (r_srs r)) then pset K_BBOX [VBox (swap_bbox (r_bbox r))] m else m).
+  assert (Es1 : pget K_SRS m1 = Some [VStr (s_code (r_srs r))]).
+  { unfold m1. destruct (ne (s_code (r_srs r))); [|exact Es].
+    rewrite pget_pset_other by (unfold K_SRS, K_BBOX; lia). exact Es. }
+  assert (Eb1 : pget K_BBOX m1 = Some [VBox (if ne (s_code (r_srs r)) then swap_bbox (r_bbox r) else r_bbox r)]).
+  { unfold m1. destruct (ne (s_code (r_srs r))); [apply pget_pset_same|exact Eb]. }
+  rewrite Es1. repeat split.
+  - rewrite pget_pset_other by (unfold K_BBOX, K_CRS; lia).
+    rewrite pget_premove_other by (unfold K_BBOX, K_SRS; lia). exact Eb1.
+  - apply pget_pset_same.
+  - rewrite pget_pset_other by (unfold K_SRS, K_CRS; lia). apply pget_premove_same.
+Qed.
+
+Lemma url_v111 ne tmpl fixed r : url_params_v false ne tmpl fixed r = url_params tmpl fixed r.
+Proof. reflexivity. Qed.
